@@ -346,6 +346,7 @@ func C15(c *Ctx) {
 	c.overlayRule("C15-6") // the loader flags: nothing that lets the go command write (BuildFlags)
 	c.logPathRule("C15-7")
 	c.atomicWriteRule("C15-8")
+	c.trailingArgsRule("C15-9")
 }
 
 // inLoop reports whether block b lies on a cycle of its function's CFG.
